@@ -75,12 +75,17 @@ def gen_block(rng, mode):
     removed = set()
     for i in range(n):
         objs = [o for o in OBJ_LABELS + created if o not in removed]
-        k = rng.weighted([("create", 18), ("add_data", 18), ("rename", 10), ("set_vertices", 7), ("set_values", 8), ("metadata", 6),
+        k = rng.weighted([("create", 14), ("create_unsaved", 7), ("add_data", 18), ("rename", 10), ("set_vertices", 7), ("set_values", 8), ("metadata", 6),
                           ("move", 5), ("copy", 7), ("remove", 7), ("list", 4), ("gc", 3), ("close", 2), ("open", 2), ("fa", 4),
                           ("bad", 4)])
         if k == "create":
             nm = f"new{i}"
             ops.append({"op": "create", "name": nm, "parent": rng.choice(["root", "container"]), "tok": rng.range(1, 50)})
+            created.append(nm)
+        elif k == "create_unsaved":
+            # public API: the entity is registered in the tree but not written; the final save of close() has to write it
+            nm = f"new{i}"
+            ops.append({"op": "create_unsaved", "name": nm, "parent": rng.choice(["root", "container"]), "tok": rng.range(1, 50)})
             created.append(nm)
         elif k == "add_data" and objs:
             o = rng.choice(objs)
@@ -139,6 +144,8 @@ def generate(rng, tier):
         [{"op": "remove", "ent": "curve"}, {"op": "gc"}, {"op": "list", "kind": "data"}, {"op": "bad", "which": "vertices_shape"},
          {"op": "create", "name": "new4", "parent": "container", "tok": 7}],
     ]
+    fixed.append([{"op": "create_unsaved", "name": "new0", "parent": "root", "tok": 4}, {"op": "rename", "ent": "pts", "name": "renamed1"},
+                  {"op": "create_unsaved", "name": "new2", "parent": "container", "tok": 6}])
     blocks = [("r+", b) for b in fixed] + [("r", fixed[0][:2])]
     for _ in range(nblocks):
         mode = rng.weighted([("r+", 80), ("a", 10), ("r", 10)])
@@ -191,6 +198,13 @@ def generate(rng, tier):
         ents = [c for i, c in enumerate(ents) if c["ekind"] == "method" or i % 3 == 0]
     for c in ents:
         cases.append(dict(c, kind="closed_entry"))
+    # the workspace's file readers on every kind of operand (plain, group, concatenator with loaded children, concatenated ...)
+    for member, args in (("fetch_children", ["pts", "container", "dhgroup", "cdh", "drillhole", "root", "data_float", "uijson"]),
+                         ("fetch_values", ["data_float", "data_text", "data_ref", "data_concat", "data_dh"]),
+                         ("fetch_metadata", ["pts", "container", "atem_rx", "dc_rx"])):
+        for a in args:
+            cases.append({"kind": "closed_entry", "target": "workspace", "owner": "Workspace", "member": member, "ekind": "method",
+                          "arg": a})
     return cases
 
 
@@ -710,6 +724,21 @@ def drive_with(case, work):
                 names[op["name"]] = e
                 exp[str(e.uid)] = {"exists": True, "name": op["name"], "vertices": verts.tolist(), "parent": str(par.uid)}
             return th, commit
+        if k == "create_unsaved":
+            par = ent_of(ws, op["parent"])
+            verts = _tok_vertices(op["tok"], 4)
+            box = {}
+
+            def th():
+                box["e"] = ws.create_entity(Points, save_on_creation=False,
+                                            entity={"vertices": verts, "name": op["name"], "parent": par})
+
+            def commit():
+                e = box["e"]
+                names[op["name"]] = e
+                if iotrace.handle_state(ws) in ("r+", "a"):    # on a read-only handle nothing is pending for the file
+                    exp[str(e.uid)] = {"exists": True, "name": op["name"], "vertices": verts.tolist(), "parent": str(par.uid)}
+            return th, commit
         if k == "add_data":
             o = ent_of(ws, op["obj"])
             if o is None:
@@ -1190,6 +1219,11 @@ def oracle(case, obs):
     reopened = cl["handle_after"] != "closed"
     if reopened and not (case["owner"] == "Workspace" and case["member"] in K.CONTROL):
         fails.append({"key": "silently-reopened:" + name, "what": f"{name} on a closed workspace left the handle {cl['handle_after']}"})
+    if (case["owner"] == "Workspace" and case["member"].startswith("fetch_") and cl["exc"] is None
+            and cl.get("returned") == "nonempty"):
+        fails.append({"key": f"served-without-file:{name}[{case.get('arg', 'default')}]",
+                      "what": f"{name}({case.get('arg', 'default operand')}) on a closed workspace returned a non-empty result instead of "
+                              f"raising the closed-file error (it is one of the workspace's file readers)"})
     if cl["calls"] and cl["exc"] not in ("Closed",) and cl["calls"][0][4] == "closed":
         fails.append({"key": f"closed-call-not-refused:{name}", "what": f"{name} reached the file layer on a closed workspace and ended with {cl['exc']}"})
     return fails
